@@ -27,7 +27,7 @@ META = {
             "default because of an explicit row; distinct by index",
     "explanation": "",
     "assumptions": ["hardware variants: Huawei CE/NE/other, Arista, Nexus 3432/3132Q/9316/9508+spine1 tag, Catalyst 2960/6500, Cisco other",
-                    "row synthesis domain: printable ASCII, stripped"],
+                    "row synthesis domain: printable ASCII, stripped", "gen.flow: normal and --clear (no_new) mode; devices.sequence: Nexus 9508 with/without the spine1 tag and a 9316 in one process"],
     "outside": ["implicit texts of hardware models not listed", "rows matching several implicit rules at once beyond the synthesised ones"],
     "bounds": {"quick": "at most 2 explicit rows in t (all choices from the synthesised row catalogue of the hardware), u empty or one row", "thorough": "at most 3 explicit rows in t, u from 12 choices"},
 }
